@@ -975,8 +975,15 @@ def r5(ctx):
         if ib is not None:
             # absoluteness is decided on the first literal of the pattern, also when the pattern starts with a group
             peeks = [c for c in ib.calls(r'str::<impl str>::(strip_prefix|trim_start_matches)$') if any("'('" in (v or '') or '"("' in (v or '') or '"(?:"' in (v or '') for v in slice_const_values(lib, backslice(ib, c.args[1:])))]
-            pm_ = [c for c in ib.calls(r'Pattern::matches_partially$|Regex::is_partial_match$')]
-            semantic = bool(pm_) and any('MAIN_SEPARATOR' in str(v) or str(v) in ('"/"', "'/'") for c in pm_ for a in c.args[1:] for v in slice_const_values(lib, backslice(ib, [a])))
+            # the bodies that decide: is_absolute and the helpers of the selector it calls
+            ibh = [ib] + [hb for k in ib.calls(r'^selector::PathSelector::\w+$') for hb in [lib.body(k.path)] if hb is not None]
+            ibh += [lib.body(cp) for x in list(ibh) for cp in lib.closures_of(x.path)]
+            PM = r'Pattern::(matches_partially|can_start_with)$|Regex::(is_partial_match|can_start_with)$'
+            def sep_arg(x, c):
+                return any('MAIN_SEPARATOR' in str(v) or str(v) in ('"/"', "'/'") for a in c.args[1:] for v in slice_const_values(lib, backslice(x, [a]))) or \
+                    any('MAIN_SEPARATOR' in str(v) for a in c.args[1:] for k_ in [backslice(x, [a])] for v in [str(kk) for kk in k_.consts])
+            pm_ = [(x, c) for x in ibh for c in x.calls(PM)]
+            semantic = any(sep_arg(x, c) for x, c in pm_)
             # (a test on what the pattern can match subsumes the two spelling tests below)
             ctx.check(bool(peeks) or semantic, rule, ib.path + '|looks-into-groups', ib.where(), 'is_absolute skips the opening of leading groups before testing for the root',
                       'is_absolute tests only the first characters of the translated pattern: a glob that starts with an alternation of absolute paths (`{/x/a,/x/b}/**` -> `(/x/a|/x/b)/.*`) counts as '
@@ -990,13 +997,34 @@ def r5(ctx):
                       'is_absolute knows `(` and `(?:` only: an absolute --regex pattern that starts with inline flags, `(?i)/data/.*`, counts as relative and becomes `<cwd>/(?i)/data/.*`, '
                       'which matches nothing - as --path it selects nothing, as --exclude it excludes nothing, silently')
             # ... and on what the expression can match rather than on how it is spelled: a partial match of the pattern against the root separator
-            pm = [c for c in ib.calls(r'Pattern::matches_partially$|Regex::is_partial_match$')]
-            sepv = [str(v) for c in pm for a in c.args[1:] for v in slice_const_values(lib, backslice(ib, [a]))]
-            ctx.check(bool(pm) and any('MAIN_SEPARATOR' in v or v in ('"/"', "'/'") for v in sepv), rule, ib.path + '|by-what-it-matches', (pm[0].where() if pm else ib.where()),
+            pm = [c for x, c in pm_]
+            ctx.check(semantic, rule, ib.path + '|by-what-it-matches', (pm[0].where() if pm else ib.where()),
                       'a pattern that can match a path beginning with the separator is absolute, however it is spelled',
                       'is_absolute looks at the first characters of the expression only (`/`, `.*`, after `(`, `(?:`, `(?i)`): `.+/sub/.+`, `\\/tmp\\/x\\/.*` (escaped slashes), `[/]tmp/.*`, `\\S+\\.jpg` '
                       'match absolute paths but count as relative and get the working directory prepended - as --path they select nothing, as --exclude they exclude nothing and the files end up in '
                       'the report that is fed to `remove`')
+            # ... but "can match a path that begins with the separator" alone is also true of a RELATIVE pattern whose first component may be empty
+            # (`*/cache/**` -> `[^/]*/cache/.*`) or whose first token is a negated class: the test with one separator needs its complement -
+            # nothing but the separator can come first (a test over the other first bytes) - or a candidate of many separators (`.+/a`)
+            weak = None
+            for x, c in pm_:
+                if not sep_arg(x, c):
+                    continue
+                one = False
+                for a in c.args[1:]:
+                    sl_ = backslice(x, [a])
+                    arr = [st for blk in x.blocks for st in blk['stmts'] if st['p'][0] in sl_.locals and st['rv']['k'] == 'agg' and st['rv'].get('ak') == 'array']
+                    rep = [st for blk in x.blocks for st in blk['stmts'] if st['p'][0] in sl_.locals and st['rv']['k'] == 'repeat']
+                    strs = [str(v) for v in slice_const_values(lib, sl_) if str(v) in ('"/"', "'/'")]
+                    if (arr and all(len(st['rv']['ops']) == 1 for st in arr) and not rep) or (strs and not arr and not rep) or (sl_.has_call(r'ToString>::to_string$|String::as_str$') and not rep and not arr):
+                        one = True
+                if one and not x.calls(r'Iterator::(all|any)$|Iterator>::(all|any)$'):
+                    weak = c
+            ctx.check(weak is None, rule, ib.path + '|one-separator-is-not-enough', (weak.where() if weak else ib.where()),
+                      'a pattern is taken for absolute only if nothing but the separator can come first (or it starts with something that spans directories)',
+                      'a pattern counts as absolute as soon as it CAN match a path that begins with the separator: that is also true of relative globs whose first component may be empty or whose first '
+                      'token is a negated class - `*/cache/**`, `*/*`, `?(a)/x`, `[!a]*` - so they are no longer anchored at the working directory: `--exclude "*/cache/**"` excludes nothing, '
+                      '`--path "*/cache/*"` selects nothing and `remove --keep-path "*/orig/**"` protects nothing')
         if lit:
             # the literal is made of exactly the text the paths are matched as (to_string_lossy): no character substitution on the way
             lsl = backslice(ap, [lit[0].args[0]])
